@@ -1,6 +1,6 @@
 (* C05 - a process crash at any point never loses or tears an object.  Statements only. *)
 From Coq Require Import List ZArith NArith.
-From DOS Require Import Base Store StoreProofs StoreLemmas Programs ProgramsProofs PackProofs MaintProofs RepackProofs.
+From DOS Require Import Base Store StoreProofs StoreLemmas Programs ProgramsProofs PackProofs MaintProofs RepackProofs AddPackProofs.
 Import ListNotations.
 
 Section C05.
@@ -74,6 +74,16 @@ Proof.
   destruct (repack_crash_safe H inflate H_inj w l id objs false m A B C D E F G I) as (X & Y & _). split; assumption.
 Qed.
 
+(* (2f) add_objects_to_pack / add_streamed_objects_to_pack (one pack), the three modes, ALL batches, EVERY crash point *)
+Theorem C05_add_to_pack_every_crash_point : forall w l id objs nh twice fs m,
+  Inv H inflate w -> pending l = [] -> Forall (aobj_ok H inflate) objs ->
+  let w' := crash (run_events (w, l) (firstn m (p_add_to_pack w id objs nh twice fs))) in
+  Inv H inflate w' /\ (forall k c, stored inflate w k = Some c -> stored inflate w' k = Some c).
+Proof.
+  intros w l id objs nh twice fs m A B C.
+  destruct (add_to_pack_crash_safe H inflate H_inj w l id objs nh twice fs m A B C) as (X & Y & _). split; assumption.
+Qed.
+
 (* (3) what a new handle returns for a visible key has the key as digest: right bytes, never another object's *)
 Theorem C05_new_handle_never_wrong_bytes : forall w k c, Inv H inflate w -> stored inflate w k = Some c -> H c = k.
 Proof. exact (stored_sound H inflate). Qed.
@@ -89,5 +99,6 @@ Print Assumptions C05_pack_every_crash_point.
 Print Assumptions C05_clean_every_crash_point.
 Print Assumptions C05_delete_every_crash_point.
 Print Assumptions C05_repack_every_crash_point.
+Print Assumptions C05_add_to_pack_every_crash_point.
 Print Assumptions C05_new_handle_never_wrong_bytes.
 Print Assumptions C05_any_spill.
